@@ -881,7 +881,7 @@ impl<'a> Sim<'a> {
         if self.b.connect_seen && !self.b.connack_sent {
             if let Some(o) = self.b.owed.iter_mut().find(|o| o.kind == rc::CONNACK && !o.answered) { o.answered = true; }
         }
-        if legal { self.b.connack_sent = true; if ok { if !sp { self.b.pubrec_seen.clear(); } self.b.has_session = true; } }
+        if legal { self.b.connack_sent = true; if ok { if !sp { self.b.pubrec_seen.clear(); self.b.next_srv_pid = 1; } self.b.has_session = true; } }
         self.send_packet(&p, legal);
     }
 
